@@ -148,7 +148,8 @@ func c16Scenarios(c *h.Ctx) []srvScenario {
 	var l []srvScenario
 	// shutdown at every point of a plain exchange
 	base := []srvStep{R("ok"), S("read"), R("pstr", "ok"), S("read"), R("ok"), R("typed:1"), S("read"), S("read")}
-	for pos := 0; pos <= len(base); pos++ {
+	// from the end (idle connection: deterministic) to the start (Shutdown racing with the connection's start-up)
+	for pos := len(base); pos >= 0; pos-- {
 		steps := append([]srvStep{}, base[:pos]...)
 		steps = append(steps, S("shutdown"), S("waitshutdown"))
 		steps = append(steps, base[pos:]...)
@@ -250,7 +251,7 @@ func driveC16(c *h.Ctx) error {
 		if !ok {
 			return fmt.Errorf("replay file has no scenario")
 		}
-		for k := 0; k < 10; k++ {
+		for k := 0; k < 20; k++ {
 			scs = append(scs, sc)
 		}
 	} else {
